@@ -153,28 +153,30 @@ Fixpoint text_index_cut {A} (partial : A -> nat -> option (list A)) (line : A ->
       else option_map (cons r) (text_index_cut partial line t (k - S (length (line r))))
   end.
 
-Lemma read_lines_last {A} (parse : list N -> option A) s fuel :
+(* generic in the line reader's check: utf8_valid for crai (lines read as Strings), no_check for
+   fai (lines read as bytes since the `fix:` commit 24986d3) *)
+Lemma read_lines_last {A} (check : list N -> bool) (parse : list N -> option A) s fuel :
   s <> [] -> ~ In LF s -> (length s < fuel)%nat ->
-  read_lines fuel parse s =
-    if utf8_valid s then match parse s with Some r => Some [r] | None => None end else None.
+  read_lines_gen check fuel parse s =
+    if check s then match parse s with Some r => Some [r] | None => None end else None.
 Proof.
-  intros Hne Hlf Hf. destruct fuel as [|f]; [lia|]. cbn [read_lines].
+  intros Hne Hlf Hf. destruct fuel as [|f]; [lia|]. cbn [read_lines_gen].
   destruct s as [|b t] eqn:E; [contradiction|]. rewrite <- E in *.
   rewrite break_at_none by exact Hlf.
-  destruct (utf8_valid s); [|reflexivity]. destruct (parse s); reflexivity.
+  destruct (check s); [|reflexivity]. destruct (parse s); reflexivity.
 Qed.
 
-Lemma read_lines_cut {A} (parse : list N -> option A) (line : A -> list N)
+Lemma read_lines_cut {A} (check : list N -> bool) (parse : list N -> option A) (line : A -> list N)
       (partial : A -> nat -> option (list A)) (l : list A) :
   (forall r, In r l ->
-     (~ In LF (line r) /\ utf8_valid (line r) = true /\ strip_cr (line r) = line r /\
+     (~ In LF (line r) /\ check (line r) = true /\ strip_cr (line r) = line r /\
       parse (line r) = Some r) /\
      forall k, (0 < k <= length (line r))%nat ->
-       (if utf8_valid (firstn k (line r))
+       (if check (firstn k (line r))
         then match parse (firstn k (line r)) with Some r' => Some [r'] | None => None end
         else None) = partial r k) ->
   forall k fuel, (length (firstn k (enc_lines line l)) < fuel)%nat ->
-  read_lines fuel parse (firstn k (enc_lines line l)) = text_index_cut partial line l k.
+  read_lines_gen check fuel parse (firstn k (enc_lines line l)) = text_index_cut partial line l k.
 Proof.
   induction l as [|r l IH]; intros H k fuel Hf.
   - unfold enc_lines. cbn [map concat text_index_cut]. rewrite firstn_nil.
@@ -195,7 +197,7 @@ Proof.
       * rewrite firstn_app in *. rewrite (firstn_all2 (line r)) in * by lia.
         replace (k - length (line r))%nat with (S (k - S (length (line r)))) in * by lia.
         cbn [firstn] in *. rewrite app_length in Hf. cbn [length] in Hf.
-        destruct fuel as [|f]; [lia|]. cbn [read_lines].
+        destruct fuel as [|f]; [lia|]. cbn [read_lines_gen].
         destruct (line r ++ LF :: firstn (k - S (length (line r))) (enc_lines line l)) eqn:E;
           [destruct (line r); discriminate|]. rewrite <- E. clear E.
         rewrite break_at_app by exact Hlf. rewrite Hu, Hs, Hp.
@@ -238,7 +240,7 @@ Lemma parse_fai_head_tail r d : fai_ok r ->
     | None => None
     end.
 Proof.
-  intros (Hu & Ht & Hl & H1 & H2 & H3 & H4 & H5 & H6). unfold parse_fai_rec, fai_head.
+  intros (Ht & Hl & H1 & H2 & H3 & H4 & H5 & H6). unfold parse_fai_rec, fai_head.
   repeat (rewrite <- app_assoc; cbn [app]).
   destruct (f_name r ++ TAB :: fmt_N (f_len r) ++ TAB :: fmt_N (f_pos r) ++ TAB :: fmt_N (f_lb r)
             ++ TAB :: d) eqn:E; [destruct (f_name r); discriminate|]. rewrite <- E. clear E.
@@ -254,13 +256,13 @@ Qed.
 Lemma ntab_fai_head_init r : fai_ok r ->
   ntab (f_name r ++ TAB :: fmt_N (f_len r) ++ TAB :: fmt_N (f_pos r) ++ TAB :: fmt_N (f_lb r)) = 3%nat.
 Proof.
-  intros (Hu & Ht & _).
+  intros (Ht & _).
   rewrite ntab_app, ntab_cons_tab, ntab_app, ntab_cons_tab, ntab_app, ntab_cons_tab.
   rewrite (ntab_none _ Ht). rewrite !ntab_digits by apply fmt_N_digits. reflexivity.
 Qed.
 
 Lemma fai_partial_ok r k : fai_ok r -> (0 < k <= length (fai_line r))%nat ->
-  (if utf8_valid (firstn k (fai_line r))
+  (if no_check (firstn k (fai_line r))
    then match parse_fai_rec (firstn k (fai_line r)) with Some r' => Some [r'] | None => None end
    else None) = fai_partial r k.
 Proof.
@@ -280,28 +282,23 @@ Proof.
         rewrite firstn_app. replace (k - length h0)%nat with O by lia. cbn [firstn]. rewrite app_nil_r.
         pose proof (ntab_firstn_le h0 k) as Hle. unfold h0 in Hle at 2.
         rewrite ntab_fai_head_init in Hle by exact Hok. lia. }
-    rewrite Hnone. destruct (utf8_valid _); reflexivity.
+    rewrite Hnone. reflexivity.
   - rewrite firstn_app. rewrite (firstn_all2 (fai_head r)) by lia.
     set (m := (k - length (fai_head r))%nat).
     rewrite parse_fai_head_tail by exact Hok.
-    pose proof Hok as (Hu & Ht & Hl & H1 & H2 & H3 & H4 & H5 & H6).
+    pose proof Hok as (Ht & Hl & H1 & H2 & H3 & H4 & H5 & H6).
     rewrite parse_nz_u64_prefix by (try assumption; unfold m; lia).
-    assert (Hv : utf8_valid (fai_head r ++ firstn m (fmt_N (f_lw r))) = true).
-    { unfold fai_head. repeat (rewrite <- app_assoc; cbn [app]).
-      rewrite utf8_valid_app by exact Hu. apply utf8_valid_ascii.
-      repeat (apply ascii_tab_digits; [apply fmt_N_digits|]).
-      constructor; [unfold TAB; lia|]. apply digits_ascii. apply all_digits_firstn. apply fmt_N_digits. }
-    rewrite Hv. reflexivity.
+    reflexivity.
 Qed.
 
 (* THE FAI THEOREM: every cut of every written index *)
 Theorem fai_truncation l k : Forall fai_ok l ->
   read_fai (firstn k (w_fai l)) = text_index_cut fai_partial fai_line l k.
 Proof.
-  intros Hok. unfold read_fai, w_fai.
+  intros Hok. unfold read_fai, w_fai, read_lines_bytes.
   replace (map w_fai_rec l) with (map (fun r => fai_line r ++ [LF]) l)
     by (apply map_ext; intros r; symmetry; apply w_fai_rec_line).
-  apply (read_lines_cut parse_fai_rec fai_line fai_partial l).
+  apply (read_lines_cut no_check parse_fai_rec fai_line fai_partial l).
   - intros r Hr. rewrite Forall_forall in Hok. split; [apply fai_line_ok; auto|].
     intros k0 Hk0. apply fai_partial_ok; auto.
   - unfold enc_lines. lia.
@@ -434,7 +431,7 @@ Proof.
   intros Hok. unfold read_crai, w_crai.
   replace (map w_crai_rec l) with (map (fun r => crai_line r ++ [LF]) l)
     by (apply map_ext; intros r; symmetry; apply w_crai_rec_line).
-  apply (read_lines_cut parse_crai_rec crai_line crai_partial l).
+  unfold read_lines. apply (read_lines_cut utf8_valid parse_crai_rec crai_line crai_partial l).
   - intros r Hr. rewrite Forall_forall in Hok. split; [apply crai_line_ok; auto|].
     intros k0 Hk0. apply crai_partial_ok; auto.
   - unfold enc_lines. lia.
